@@ -14,14 +14,27 @@ Definition rt (i : item) : item := match i with ICall m c _ a => ICall m c 0 a |
 Section Shift.
 Variables (j now now' : N).
 
-Definition tm_rel (a b : N * task) : Prop := snd a = snd b /\ exists d, fst a = now + d /\ fst b = now' + d.
+(* two deadlines: the same delay after [now] / [now']; or, if the two instants coincide, the same deadline *)
+Definition dl_rel (t t' : N) : Prop := (now = now' /\ t = t') \/ exists d, t = now + d /\ t' = now' + d.
+Definition tm_rel (a b : N * task) : Prop := snd a = snd b /\ dl_rel (fst a) (fst b).
 Definition sh_rel (a b : option (option N)) : Prop :=
   match a, b with
   | None, None => True
   | Some None, Some None => True
-  | Some (Some t), Some (Some t') => exists d, t = now + d /\ t' = now' + d
+  | Some (Some t), Some (Some t') => dl_rel t t'
   | _, _ => False
   end.
+(* two records: equal up to the time stamp of a call, and equal if the two instants coincide *)
+Definition irel (i i' : item) : Prop := rt i = rt i' /\ (now = now' -> i = i').
+
+Lemma irel_refl i : irel i i.
+Proof. split; reflexivity. Qed.
+
+Lemma dl_rel_lt t t' d : dl_rel t t' -> (now + d <? t) = (now' + d <? t').
+Proof.
+  intros [[-> ->]|(d0 & -> & ->)]; [reflexivity|].
+  destruct (now + d <? now + d0) eqn:X, (now' + d <? now' + d0) eqn:Y; try reflexivity; rewrite ?N.ltb_lt, ?N.ltb_ge in *; lia.
+Qed.
 
 (* the module's state in the two runs: equal up to the deadlines set since [now] / [now'] *)
 Record TS (x x' : mst) : Prop := {
@@ -29,13 +42,22 @@ Record TS (x x' : mst) : Prop := {
   ts_ready : ready x = ready x'; ts_hnd : hnd x = hnd x'; ts_catch : catchf x = catchf x';
   ts_timers : Forall2 tm_rel (timers x) (timers x'); ts_shut : sh_rel (shut x) (shut x') }.
 
-Definition RX (s s' : xs) : Prop := TS (w_mod (x_w s) j) (w_mod (x_w s') j) /\ map rt (x_log s) = map rt (x_log s').
+Definition RX (s s' : xs) : Prop := TS (w_mod (x_w s) j) (w_mod (x_w s') j) /\ Forall2 irel (x_log s) (x_log s').
 
-Lemma RX_say i i' s s' : rt i = rt i' -> RX s s' -> RX (say i s) (say i' s').
-Proof. intros Hi [A B]. split; [exact A|]. cbn [say x_log]. rewrite !map_app, B. cbn [map]. rewrite Hi. reflexivity. Qed.
+Lemma RX_say i i' s s' : irel i i' -> RX s s' -> RX (say i s) (say i' s').
+Proof. intros Hi [A B]. split; [exact A|]. cbn [say x_log]. apply Forall2_app; [exact B|constructor; [exact Hi|constructor]]. Qed.
 
 Lemma RX_say_all l s s' : RX s s' -> RX (say_all l s) (say_all l s').
-Proof. intros [A B]. split; [exact A|]. cbn [say_all x_log]. rewrite !map_app, B. reflexivity. Qed.
+Proof.
+  intros [A B]. split; [exact A|]. cbn [say_all x_log]. apply Forall2_app; [exact B|].
+  induction l as [|i l IH]; constructor; [apply irel_refl|exact IH].
+Qed.
+
+Lemma irel_logs l l' : Forall2 irel l l' -> map rt l = map rt l' /\ (now = now' -> l = l').
+Proof.
+  induction 1 as [|i i' l l' [Hi1 Hi2] _ [IH1 IH2]]; [auto|]. cbn [map]. rewrite Hi1, IH1. split; [reflexivity|].
+  intros E. rewrite (Hi2 E), (IH2 E). reflexivity.
+Qed.
 
 Lemma RX_on_w f f' s s' : RX s s' -> TS (w_mod (f (x_w s)) j) (w_mod (f' (x_w s')) j) -> RX (on_w f s) (on_w f' s').
 Proof. intros [_ B] H. split; [exact H|exact B]. Qed.
@@ -56,19 +78,19 @@ Lemma do_act_RX k who a s s' : RX s s' -> RX (do_act k now j who a s) (do_act k 
 Proof.
   intros H. pose proof H as [A B]. assert (Hb : broke j s = broke j s') by (unfold broke; rewrite (ts_bud _ _ A); reflexivity).
   destruct a; cbn [do_act]; try exact H; rewrite <- ?Hb; try (destruct (broke j s); [exact H|]).
-  - apply RX_say; [reflexivity|exact H].
-  - apply RX_say; [reflexivity|]. apply RX_on_w; [exact H|]. cbv beta. rewrite !buf_send_at_mod'. unfold spend. ts A.
-  - apply RX_say; [reflexivity|]. apply RX_on_w; [exact H|]. cbv beta. unfold buf_schedule_at, buf_push, spend. ts A.
-  - apply RX_say; [reflexivity|]. apply RX_on_w; [exact H|]. cbv beta. unfold request, spend. ts A; try exact I.
-  - apply RX_say; [reflexivity|]. apply RX_on_w; [exact H|]. cbv beta. unfold request, spend. ts A; try (exists d; auto).
-  - apply RX_say; [reflexivity|]. apply RX_on_w; [exact H|]. cbv beta. ts A.
+  - apply RX_say; [apply irel_refl|exact H].
+  - apply RX_say; [apply irel_refl|]. apply RX_on_w; [exact H|]. cbv beta. rewrite !buf_send_at_mod'. unfold spend. ts A.
+  - apply RX_say; [apply irel_refl|]. apply RX_on_w; [exact H|]. cbv beta. unfold buf_schedule_at, buf_push, spend. ts A.
+  - apply RX_say; [apply irel_refl|]. apply RX_on_w; [exact H|]. cbv beta. unfold request, spend. ts A; try exact I.
+  - apply RX_say; [apply irel_refl|]. apply RX_on_w; [exact H|]. cbv beta. unfold request, spend. ts A; try (right; exists d; auto).
+  - apply RX_say; [apply irel_refl|]. apply RX_on_w; [exact H|]. cbv beta. ts A.
 Qed.
 
 Lemma quiet_RX s s' : RX s s' -> RX (quiet j s) (quiet j s').
 Proof.
   intros H. pose proof H as [A B]. unfold quiet. pose proof (ts_shut _ _ A) as Hs. unfold sh_rel in Hs.
   destruct (shut (w_mod (x_w s) j)) as [[t|]|], (shut (w_mod (x_w s') j)) as [[t'|]|]; try contradiction;
-    (apply RX_say; [reflexivity|]); try exact H.
+    (apply RX_say; [apply irel_refl|]); try exact H.
   apply RX_on_w; [exact H|]. unfold request. ts A; try exact I.
 Qed.
 
@@ -79,27 +101,23 @@ Proof.
   induction p as [|a p IH]; intros s s' H; cbn [run_prog fst snd]; [auto|].
   destruct a; try (apply IH, do_act_RX, H).
   - destruct (tk && (0 <? d)); cbn [fst snd]; [auto|apply IH, H].
-  - cbn [fst snd]. split; [|reflexivity]. rewrite (ts_catch _ _ (proj1 H)). apply RX_say; [reflexivity|exact H].
+  - cbn [fst snd]. split; [|reflexivity]. rewrite (ts_catch _ _ (proj1 H)). apply RX_say; [apply irel_refl|exact H].
   - destruct tk; cbn [fst snd]; [apply IH, H|]. split; [apply quiet_RX, H|reflexivity].
 Qed.
 
 Lemma end_task_RX how s s' tk : RX s s' -> RX (end_task j how s tk) (end_task j how s' tk).
-Proof. intros H. unfold end_task. apply RX_say; [reflexivity|]. apply RX_on_w; [exact H|]. exact (proj1 H). Qed.
+Proof. intros H. unfold end_task. apply RX_say; [apply irel_refl|]. apply RX_on_w; [exact H|]. exact (proj1 H). Qed.
 
 Lemma fold_end_task_RX : forall l s s', RX s s' -> RX (fold_left (end_task j 0) l s) (fold_left (end_task j 0) l s').
 Proof. induction l as [|tk l IH]; intros s s' H; cbn [fold_left]; [exact H|]. apply IH, end_task_RX, H. Qed.
 
 Lemma tins_rel d tk : forall l l', Forall2 tm_rel l l' -> Forall2 tm_rel (tins (now + d) tk l) (tins (now' + d) tk l').
 Proof.
-  induction 1 as [|a b l l' Hab Hl IH]; cbn [tins].
-  - constructor; [split; [reflexivity|exists d; auto]|constructor].
-  - destruct Hab as [Hs (d0 & E1 & E2)]. rewrite E1, E2.
-    assert (E : (now + d <? now + d0) = (now' + d <? now' + d0)).
-    { destruct (now + d <? now + d0) eqn:X, (now' + d <? now' + d0) eqn:Y; try reflexivity;
-        rewrite ?N.ltb_lt, ?N.ltb_ge in *; lia. }
-    rewrite <- E. destruct (now + d <? now + d0).
-    + constructor; [split; [reflexivity|exists d; auto]|]. constructor; [split; [exact Hs|exists d0; rewrite <- E1, <- E2; auto]|exact Hl].
-    + constructor; [split; [exact Hs|exists d0; rewrite <- E1, <- E2; auto]|exact IH].
+  assert (Hn : tm_rel (now + d, tk) (now' + d, tk)) by (split; [reflexivity|right; exists d; auto]).
+  induction 1 as [|a b l l' Hab Hl IH]; cbn [tins]; [constructor; [exact Hn|constructor]|].
+  destruct Hab as [Hs Hd]. rewrite <- (dl_rel_lt _ _ d Hd). destruct (now + d <? fst a).
+  - constructor; [exact Hn|]. constructor; [split; assumption|exact Hl].
+  - constructor; [split; assumption|exact IH].
 Qed.
 
 Lemma poll1_RX k s s' tk : RX s s' -> RX (poll1 k now j s tk) (poll1 k now' j s' tk).
@@ -108,7 +126,7 @@ Proof.
   match goal with |- context [run_prog true k now j ?who ?p (say ?it s)] =>
     destruct (run_prog_RX true k who p (say it s)
                 (say (ICall j (if tk_new tk then CbTask (tk_id tk) (tk_inc tk) else CbTimer (tk_id tk) (tk_inc tk)) now' (active (w_mod (x_w s') j))) s'))
-      as [H1 H2]; [apply RX_say; [reflexivity|exact H]|];
+      as [H1 H2]; [apply RX_say; [split; [reflexivity|intros E; rewrite E; reflexivity]|exact H]|];
     destruct (run_prog true k now j who p (say it s)) as [s1 r] end.
   match goal with |- context [run_prog true k now' j ?who ?p ?s0] => destruct (run_prog true k now' j who p s0) as [s1' r'] end.
   cbn [fst snd] in H1, H2. subst r'. destruct r; try (apply end_task_RX; exact H1).
@@ -133,7 +151,7 @@ Proof.
       assert (H0 : RX s0 s0');
       [|destruct (run_prog_RX false k 0 p s0 s0' H0) as [H1 H2];
         destruct (run_prog false k now j 0 p s0) as [s2 r]; destruct (run_prog false k now' j 0 p s0') as [s2' r']] end end.
-  { apply RX_say_all. apply RX_on_w; [apply RX_say; [reflexivity|exact H]|]. unfold spawn_all. cbn [say x_w].
+  { apply RX_say_all. apply RX_on_w; [apply RX_say; [split; [reflexivity|intros E; rewrite E; reflexivity]|exact H]|]. unfold spawn_all. cbn [say x_w].
     rewrite (ts_inc _ _ A). destruct A as [a1 a2 a3 a4 a5 a6 a7 a8 a9].
     constructor; cbn [w_mod set_mod]; rewrite ?N.eqb_refl; cbn [active inc bud nw ready hnd catchf timers shut set_ready set_hnd];
       rewrite ?a5, ?a6; try assumption; reflexivity. }
@@ -168,11 +186,14 @@ Lemma end_rec_retime sc now now' j w w' : w_mod w j = w_mod w' j ->
   map rt (e_items (snd (end_rec sc now j w))) = map rt (e_items (snd (end_rec sc now' j w'))).
 Proof.
   intros E Ht Hn Hs. unfold end_rec. cbn [snd e_items].
-  apply (at_sim_end_RX j now now' (nmods sc) (cfg sc j)). split; [|reflexivity]. cbn [x_w].
-  unfold activate. rewrite <- E, Ht. cbn [split_due w_mod set_cur set_mod]. rewrite !N.eqb_refl. rewrite Hn.
-  constructor; cbn [active inc bud nw ready hnd catchf timers shut set_nw set_ready set_timers nw_bump]; try reflexivity.
-  - constructor.
-  - rewrite Hs. exact I.
+  assert (R : RX j now now' (at_sim_end (nmods sc) (cfg sc j) now j {| x_w := activate now j w; x_log := [] |})
+                            (at_sim_end (nmods sc) (cfg sc j) now' j {| x_w := activate now' j w'; x_log := [] |})).
+  { apply at_sim_end_RX. split; [|constructor]. cbn [x_w].
+    unfold activate. rewrite <- E, Ht. cbn [split_due w_mod set_cur set_mod]. rewrite !N.eqb_refl. rewrite Hn.
+    constructor; cbn [active inc bud nw ready hnd catchf timers shut set_nw set_ready set_timers nw_bump]; try reflexivity.
+    - constructor.
+    - rewrite Hs. exact I. }
+  exact (proj1 (irel_logs now now' _ _ (proj2 R))).
 Qed.
 
 (* ---- the tear-down sweep ---- *)
